@@ -459,6 +459,12 @@ Proof.
   apply (inv10_same st); auto.
 Qed.
 
+Lemma inv10_start_converter : forall st, inv10 st -> inv10 (start_converter st).
+Proof.
+  intros st I. unfold start_converter. destruct (cjob st); auto. destruct (cwork st); auto.
+  apply (inv10_same st); auto.
+Qed.
+
 Lemma inv10_set_used_disk : forall st md, inv10 st -> inv10 (set_used_disk st md).
 Proof. intros. apply (inv10_same st); auto. Qed.
 
@@ -468,7 +474,7 @@ Proof. intros. apply firstn_all. Qed.
 Lemma inv10_start_merge : forall st, inv10 st -> mjob st = None -> inv10 (start_merge st).
 Proof.
   intros st I Hm. unfold start_merge. rewrite Hm.
-  destruct (tjob st); auto. destruct (unc st =? 0); auto.
+  destruct (tjob st); auto. destruct (cjob st); auto. destruct (unc st =? 0); auto.
   destruct (find_merge (nunm st) (indexes st)) as [i|]; auto.
   destruct I as [S I K J M].
   constructor; simpl; auto.
@@ -521,15 +527,36 @@ Lemma v_step_release : forall v st, inv10 st -> inv10 (stepm st (ARelease v)).
 Proof. intros v st I. simpl. destruct (view_of v (views st)); [|exact I]. apply (inv10_same st); auto. Qed.
 
 Lemma v_step_tagadd : forall st, inv10 st -> inv10 (stepm st ATagAdd).
-Proof. intros st I. simpl. apply inv10_start_tagging. apply (inv10_same st); auto. Qed.
+Proof. intros st I. simpl. apply inv10_start_tagging. exact I. Qed.
 
-Lemma v_step_tagdel : forall u h st, inv10 st -> inv10 (stepm st (ATagDel u h)).
-Proof. intros u h st I. simpl. destruct (ntags st =? 0); [exact I|]. apply (inv10_same st); auto. Qed.
+Lemma v_step_tagdel : forall h st, inv10 st -> inv10 (stepm st (ATagDel h)).
+Proof. intros h st I. simpl. apply (inv10_same st); auto. Qed.
 
-Lemma v_step_tagupd : forall u h st, inv10 st -> inv10 (stepm st (ATagUpd u h)).
+Lemma v_step_tagupd : forall h st, inv10 st -> inv10 (stepm st (ATagUpd h)).
 Proof.
-  intros u h st I. simpl. destruct (ntags st =? 0); [exact I|].
-  apply inv10_start_tagging. apply (inv10_same st); auto.
+  intros h st I. simpl. apply inv10_start_converter. apply inv10_start_tagging. apply (inv10_same st); auto.
+Qed.
+
+Lemma v_step_env : forall st a, inv10 st ->
+  match a with AConvSet | AConvRemove | AConvAdd | AEnvUnc _ | AEnvConvWork _ => True | _ => False end ->
+  inv10 (stepm st a).
+Proof.
+  intros st a I H. destruct a; try contradiction; simpl; try exact I.
+  - apply inv10_start_converter. exact I.
+  - apply (inv10_same st); auto.
+  - apply (inv10_same st); auto.
+Qed.
+
+Lemma v_step_start_conv : forall st, inv10 st -> inv10 (stepm st (AStart KConvert)).
+Proof.
+  intros st I. simpl. destruct (cjob st) as [[snap [|]]|]; try exact I. apply (inv10_same st); auto.
+Qed.
+
+Lemma v_step_complete_conv : forall st, inv10 st -> inv10 (stepm st (AComplete KConvert)).
+Proof.
+  intros st I. simpl. destruct (cjob st) as [[snap [|]]|]; try exact I.
+  apply inv10_set_used_disk. apply inv10_start_merge'. apply inv10_start_converter. apply inv10_start_tagging.
+  apply (inv10_same st); auto.
 Qed.
 
 Lemma v_step_start_tag : forall st, inv10 st -> inv10 (stepm st (AStart KTag)).
@@ -540,7 +567,7 @@ Qed.
 Lemma v_step_complete_tag : forall st, inv10 st -> inv10 (stepm st (AComplete KTag)).
 Proof.
   intros st I. simpl. destruct (tjob st) as [[snap [|] vv]|]; try exact I.
-  apply inv10_set_used_disk. apply inv10_start_merge'. apply inv10_start_tagging.
+  apply inv10_set_used_disk. apply inv10_start_merge'. apply inv10_start_converter. apply inv10_start_tagging.
   apply (inv10_same st); auto.
 Qed.
 
@@ -714,7 +741,7 @@ Lemma v_step_complete_import : forall st, inv10 st -> inv10 (stepm st (AComplete
 Proof.
   intros st I. simpl.
   destruct (ijob st) as [[caps nx snap [|] cr un np]|] eqn:Hj; try exact I.
-  apply inv10_start_merge'. apply inv10_start_tagging.
+  apply inv10_start_merge'. apply inv10_start_converter. apply inv10_start_tagging.
   match goal with |- inv10 (match ?qq with [] => ?s1 | _ => _ end) => set (st1 := s1) end.
   assert (I1 : inv10 st1).
   { destruct I as [S I K J M].
@@ -735,7 +762,7 @@ Qed.
 
 Theorem step_inv10 : forall st a, inv13 st -> inv10 st -> inv10 (stepm st a).
 Proof.
-  intros st a I3 I. destruct a as [ks|v|v|v| |u h|u h|k|k].
+  intros st a I3 I. destruct a as [ks|v|v|v| |h|h| | | |n|b|k|k].
   - apply v_step_import; auto.
   - apply v_step_view; auto.
   - apply v_step_read; auto.
@@ -743,8 +770,13 @@ Proof.
   - apply v_step_tagadd; auto.
   - apply v_step_tagdel; auto.
   - apply v_step_tagupd; auto.
-  - destruct k; [apply v_step_start_import|apply v_step_start_merge|apply v_step_start_tag]; auto.
-  - destruct k; [apply v_step_complete_import|apply v_step_complete_merge|apply v_step_complete_tag]; auto.
+  - apply v_step_env; simpl; auto.
+  - apply v_step_env; simpl; auto.
+  - apply v_step_env; simpl; auto.
+  - apply v_step_env; simpl; auto.
+  - apply v_step_env; simpl; auto.
+  - destruct k; [apply v_step_start_import|apply v_step_start_merge|apply v_step_start_tag|apply v_step_start_conv]; auto.
+  - destruct k; [apply v_step_complete_import|apply v_step_complete_merge|apply v_step_complete_tag|apply v_step_complete_conv]; auto.
 Qed.
 
 Lemma inv10_init : inv10 init.
@@ -790,22 +822,23 @@ Proof. intros n fs H f Hf. apply H. eapply in_skipn. eauto. Qed.
 
 Lemma step_files_ok : forall st a, inv10 st -> files_ok (indexes st) -> files_ok (indexes (stepm st a)).
 Proof.
-  intros st a I U. destruct a as [ks|v|v|v| |wu h|wu h|k|k]; simpl.
+  intros st a I U. destruct a as [ks|v|v|v| |h|h| | | |n|b|k|k]; simpl; auto.
   - destruct ks; auto. destruct (ascending _ _); auto. destruct (_ =? _)%nat; auto.
   - destruct (view_of v (views st)); auto.
   - destruct (view_of v (views st)) as [[|]|]; auto. destruct rf; auto.
   - destruct (view_of v (views st)); auto.
   - rewrite indexes_start_tagging. exact U.
-  - destruct (ntags st =? 0); auto.
-  - destruct (ntags st =? 0); auto. rewrite indexes_start_tagging. exact U.
+  - rewrite indexes_start_converter, indexes_start_tagging. exact U.
+  - rewrite indexes_start_converter. exact U.
   - destruct k.
     + destruct (ijob st) as [[caps nx snap [|] cr un np]|]; auto.
       destruct (from_pcap capdb bad (known st) caps snap) as [[es usednew] allk]. auto.
     + destruct (mjob st) as [[off snap [|] mg]|]; auto.
     + destruct (tjob st) as [[snap [|] vv]|]; auto.
+    + destruct (cjob st) as [[snap [|]]|]; auto.
   - destruct k.
     + destruct (ijob st) as [[caps nx snap [|] cr un np]|] eqn:Hj; auto.
-      rewrite indexes_start_merge, indexes_start_tagging.
+      rewrite indexes_start_merge, indexes_start_converter, indexes_start_tagging.
       assert (E : forall s1 : state, indexes match skipn np (queue st) with [] => s1 | _ :: _ => launch_import (skipn np (queue st)) s1 end = indexes s1).
       { intros. destruct (skipn np (queue st)); reflexivity. }
       rewrite E. simpl.
@@ -828,7 +861,9 @@ Proof.
       simpl in Hf. destruct Hf as [Hf|Hf]; [|eapply files_ok_skipn; eauto].
       subst f. simpl. apply merge_nodup. rewrite <- M1. apply files_ok_firstn. apply files_ok_skipn. exact U.
     + destruct (tjob st) as [[snap [|] vv]|]; auto.
-      rewrite indexes_set_used_disk, indexes_start_merge, indexes_start_tagging. exact U.
+      rewrite indexes_set_used_disk, indexes_start_merge, indexes_start_converter, indexes_start_tagging. exact U.
+    + destruct (cjob st) as [[snap [|]]|]; auto.
+      rewrite indexes_set_used_disk, indexes_start_merge, indexes_start_converter, indexes_start_tagging. exact U.
 Qed.
 
 Theorem run_files_ok : forall acts, files_ok (indexes (fold_left stepm acts init)).
@@ -845,9 +880,12 @@ Proof. intros. unfold start_tagging. destruct (tjob st); auto. destruct (unc st 
 
 Lemma views_start_merge : forall st, views (start_merge st) = views st.
 Proof.
-  intros. unfold start_merge. destruct (mjob st); auto. destruct (tjob st); auto.
+  intros. unfold start_merge. destruct (mjob st); auto. destruct (tjob st); auto. destruct (cjob st); auto.
   destruct (unc st =? 0); auto. destruct (find_merge (nunm st) (indexes st)); auto.
 Qed.
+
+Lemma views_start_converter : forall st, views (start_converter st) = views st.
+Proof. intros. unfold start_converter. destruct (cjob st); auto. destruct (cwork st); auto. Qed.
 
 Lemma view_of_app : forall v a b, view_of v (a ++ b) = match view_of v a with Some s => Some s | None => view_of v b end.
 Proof. induction a as [|[w s] r]; simpl; intros; [reflexivity|]. destruct (w =? v); auto. Qed.
@@ -877,27 +915,30 @@ Qed.
 Lemma view_step_stable : forall st a v s, rf = false -> view_of v (views st) = Some s -> a <> ARelease v ->
   view_of v (views (stepm st a)) = Some s.
 Proof.
-  intros st a v s Hrf H Ha. destruct a as [ks|w|w|w| |wu h|wu h|k|k]; simpl.
+  intros st a v s Hrf H Ha. destruct a as [ks|w|w|w| |h|h| | | |n|b|k|k]; simpl; auto.
   - destruct ks; auto. destruct (ascending _ _); auto. destruct (_ =? _)%nat; auto.
   - destruct (view_of w (views st)) eqn:E; auto. simpl. rewrite view_of_app, H. reflexivity.
   - destruct (view_of w (views st)) as [[|]|]; auto. rewrite Hrf. auto.
   - destruct (view_of w (views st)) eqn:E; auto. simpl. rewrite view_of_del_other; auto. congruence.
   - rewrite views_start_tagging. exact H.
-  - destruct (ntags st =? 0); auto.
-  - destruct (ntags st =? 0); auto. rewrite views_start_tagging. exact H.
+  - rewrite views_start_converter, views_start_tagging. exact H.
+  - rewrite views_start_converter. exact H.
   - destruct k.
     + destruct (ijob st) as [[caps nx snap [|] cr un np]|]; auto.
       destruct (from_pcap capdb bad (known st) caps snap) as [[es usednew] allk]. auto.
     + destruct (mjob st) as [[off snap [|] mg]|]; auto.
     + destruct (tjob st) as [[snap [|] vv]|]; auto.
+    + destruct (cjob st) as [[snap [|]]|]; auto.
   - destruct k.
     + destruct (ijob st) as [[caps nx snap [|] cr un np]|]; auto.
-      rewrite views_start_merge, views_start_tagging.
+      rewrite views_start_merge, views_start_converter, views_start_tagging.
       destruct (skipn np (queue st)); exact H.
     + destruct (mjob st) as [[off snap [|] mg]|]; auto.
       unfold set_used_disk. simpl. rewrite views_start_merge. destruct mg; exact H.
     + destruct (tjob st) as [[snap [|] vv]|]; auto.
-      unfold set_used_disk. simpl. rewrite views_start_merge, views_start_tagging. exact H.
+      unfold set_used_disk. simpl. rewrite views_start_merge, views_start_converter, views_start_tagging. exact H.
+    + destruct (cjob st) as [[snap [|]]|]; auto.
+      unfold set_used_disk. simpl. rewrite views_start_merge, views_start_converter, views_start_tagging. exact H.
 Qed.
 
 Lemma view_run_stable : forall acts st v s, rf = false -> view_of v (views st) = Some s ->
